@@ -13,7 +13,7 @@ CHECK = {
         suite("redir", "c01", 3, 18, stdin=True, args=["-kind", "redir"], timeout={"quick": 600, "thorough": 1500}),
         suite("raft1", "c01", 0, 30, stdin=True, tiers=["thorough"], args=["-kind", "raft1"], timeout={"thorough": 1200}),
         suite("kill", "c01", 0, 16, stdin=True, tiers=["thorough"], args=["-kind", "kill"], timeout={"thorough": 1200}),
-        suite("net", "c01", 0, 24, stdin=True, tiers=["thorough"], args=["-kind", "net"], timeout={"thorough": 1200}),
+        suite("net", "c01", 0, 32, stdin=True, tiers=["thorough"], args=["-kind", "net"], timeout={"thorough": 1200}),
     ],
     "gen": [{"pkg": "extract_c01", "out": "lean/ClusterVerif/Gen/C01Commit.lean"}],
     "extra": [_conclusive],
